@@ -3,6 +3,7 @@ written."""
 import ast
 
 from sa import pyflow
+from sa import pattern as pat
 from sa.symbols import Program
 from sa.loader import AnalysisError, enclosing_function, parent_chain
 
@@ -371,6 +372,78 @@ def rule_r5(repo, run):
                   sample=dict(loop=q, flag=flag))
 
 
+def rule_r6(repo, run):
+    R = run.rule("C15.R6", "wrap flags are promoted bottom-up through every container and the output "
+                           "directories come from their own command-line argument")
+    am = repo.module("ast")
+    cls = am.cls("PromoteWrap")
+    visits = {n.name[len("visit_"):]: n for n in cls.body if isinstance(n, ast.FunctionDef) and n.name.startswith("visit_")}
+    # which child collection holds instances of a class that PromoteWrap descends into
+    descend = {}
+    for k in visits:
+        for fn in ast.walk(am.tree):
+            if isinstance(fn, ast.FunctionDef):
+                for _, env in pat.find(fn, "MV_N = %s(...)" % k):
+                    for _, e2 in pat.find(fn, "self.MV_A.append(%s)" % env["N"]):
+                        descend[e2["A"]] = k
+    if not descend:
+        raise AnalysisError("C15.R6: cannot tell which collections hold the containers PromoteWrap visits")
+    colls = {}
+    n = 0
+    for k, fn in sorted(visits.items()):
+        loops = [st for st in fn.body if isinstance(st, ast.For)]
+        got = []
+        for lp in loops:
+            it = pyflow.dotted(lp.iter) or ""
+            if not it.startswith(fn.args.args[1].arg + "."):
+                continue
+            coll = it.split(".", 1)[1]
+            got.append(coll)
+            v = lp.target.id if isinstance(lp.target, ast.Name) else None
+            n += 1
+            acc = [i for i, st in enumerate(lp.body) if pat.has(st, "MV_W.accumulate(%s.wrap)" % v)]
+            vis = [i for i, st in enumerate(lp.body) if pat.has(st, "self.visit(%s)" % v)]
+            construct = "ast.PromoteWrap.visit_%s:%s" % (k, coll)
+            if not acc:
+                run.check(R, construct, False, "children in %s are not accumulated into the container's flags" % coll,
+                          am.loc(lp))
+                continue
+            if coll in descend:
+                run.check(R, construct, bool(vis) and max(vis) < min(acc),
+                          "%s children are containers themselves: they must be visited (so that their own flags are "
+                          "complete) before being accumulated" % coll, am.loc(lp),
+                          sample=dict(visitor=k, collection=coll, order=[am.seg(st) for st in lp.body]))
+            else:
+                run.check(R, construct, True, "", sample=dict(visitor=k, collection=coll))
+        colls[k] = got
+    run.floor(R, "child collections promoted", n, 15)
+    if "LibraryNode" in colls and "NamespaceNode" in colls:
+        run.check(R, "ast.PromoteWrap:siblings", sorted(colls["LibraryNode"]) == sorted(colls["NamespaceNode"]),
+                  "library and namespace visitors must promote the same collections: %s vs %s"
+                  % (colls["LibraryNode"], colls["NamespaceNode"]), am.loc(cls))
+    if "ClassNode" in colls and "NamespaceNode" in colls:
+        run.check(R, "ast.PromoteWrap:class-sibling",
+                  sorted(set(colls["NamespaceNode"]) - {"namespaces"}) == sorted(colls["ClassNode"]),
+                  "class visitor must promote every collection a namespace has except namespaces: %s"
+                  % colls["ClassNode"], am.loc(cls))
+    # output directories: <x>_dir = args.outdir_<x> or args.outdir
+    mm = repo.module("main")
+    f = mm.func("main_with_args")
+    nd = 0
+    for node in ast.walk(f):
+        if isinstance(node, ast.Assign) and len(node.targets) == 1:
+            t = pyflow.dotted(node.targets[0]) or ""
+            if t.startswith("config.") and t.endswith("_dir") and t != "config.out_dir":
+                nd += 1
+                own = t[len("config."):-len("_dir")]
+                want = ("args.outdir_%s or args.outdir" % own)
+                run.check(R, "main.main_with_args:%s" % t, pat.match(pat.parse(want)[1], node.value, {}),
+                          "%s must be its own --outdir-%s argument with --outdir as the only fallback; found `%s`"
+                          % (t, own.replace("_", "-"), mm.seg(node.value)), mm.loc(node),
+                          sample=dict(directory=t, value=mm.seg(node.value)))
+    run.floor(R, "output directory assignments", nd, 4)
+
+
 def run(repo, run, tier):
     P = Program(repo)
     rule_r1(repo, run)
@@ -378,5 +451,6 @@ def run(repo, run, tier):
     rule_r3(repo, run, P)
     rule_r4(repo, run)
     rule_r5(repo, run)
+    rule_r6(repo, run)
     run.assumptions.append("the property's domain requests Fortran only together with C, so a test of the "
                            "Fortran flag is accepted as guard for switching the C flag on")
